@@ -5,6 +5,7 @@ import ksi
 
 T_NEW = 1500000000      # after the SHA-1 deprecation date 2016-07-01
 T_OLD = 1400000000
+SHA1_DEPRECATED = 1467331200   # 2016-07-01T00:00:00Z: SHA-1 is trusted strictly before this second
 BASE_LEVEL = 3          # level correction of the very first link (so that input levels 0..3 are acceptable)
 
 
@@ -36,7 +37,7 @@ def realize(case, rng):
     viol = {(v["c"], v["at"]) for v in case["viol"]}
     has = lambda c, at=None: any(vc == c and (at is None or va == at) for vc, va in viol)
     nch = case["nch"]
-    t = T_NEW
+    t = {"after": T_NEW, "at": SHA1_DEPRECATED, "before": SHA1_DEPRECATED - 1}[case.get("epoch", "after")]
     in_alg = 0 if has("inputAlg") else 1
     doc = ksi.imprint(in_alg, b"document-%d" % rng.randrange(1 << 30))
     pads = list(case["pads"])
